@@ -60,6 +60,10 @@ def handle (args : List String) : String :=
     match parseMode m, runesOfHex p, strs.mapM runesOfHex with
     | some m, some p, some strs => bits (globMatch m p) strs
     | _, _, _ => "bad-op"
+  | ["supported", m, p] =>
+    match parseMode m, runesOfHex p with
+    | some m, some p => if supported m p then "yes" else "no"
+    | _, _ => "bad-op"
   | ["malformed", m, p] =>
     match parseMode m, runesOfHex p with
     | some m, some p =>
